@@ -107,11 +107,14 @@ def get_func_in_mro(obj: Any, code: CodeType) -> Optional[Callable[..., Any]]:
     val = inspect.getattr_static(obj, code.co_name, None)
     if val is None:
         return None
-    if isinstance(val, (classmethod, staticmethod)):
+    # Look at the real class of the raw attribute: isinstance() would consult
+    # val.__class__ and thereby run attribute hooks of arbitrary user objects.
+    kind = type(val)
+    if issubclass(kind, (classmethod, staticmethod)):
         cand = val.__func__
-    elif isinstance(val, property) and (val.fset is None) and (val.fdel is None):
+    elif issubclass(kind, property) and (val.fset is None) and (val.fdel is None):
         cand = cast(Callable[..., Any], val.fget)
-    elif cached_property and isinstance(val, cached_property):
+    elif cached_property and issubclass(kind, cached_property):
         cand = val.func
     else:
         cand = cast(Callable[..., Any], val)
@@ -160,7 +163,7 @@ def get_func(frame: FrameType) -> Optional[Callable[..., Any]]:
     # try looking at classes in global scope.
     if func is None:
         for v in frame.f_globals.values():
-            if not isinstance(v, type):
+            if not issubclass(type(v), type):
                 continue
             func = get_func_in_mro(v, code)
             if func is not None:
